@@ -148,6 +148,19 @@ CHECKS = {
         design_ref='DESIGN.md §2 C10',
         note='Trusted: the reference criteria and the independently transcribed radius table (20 elements; all others have no radius). Ties within 1e-9 relative go either way.',
         technique='Hypothesis generated inputs with threshold construction vs. O(n^2) reference (two-directional edge-set comparison)'),
+    'C06': dict(
+        category='exploration',
+        text=('ISMAGS is compared with networkx VF2 (node-induced) as an independent reference: every yielded mapping is checked '
+              'definitionally (soundness); symmetry=False must yield the full isomorphism set exactly once; symmetry=True must hit '
+              'every orbit of that set under the pattern automorphism group exactly once (orbit marking); largest_common_subgraph is '
+              'compared with a descending subset enumeration (size, soundness, completeness / closure under the automorphism group). '
+              'Domains: ALL pairs of labelled graphs with pattern <= 4 nodes and host <= 4 (quick) / 5 (thorough) nodes, uncoloured '
+              'and 2-coloured (exhaustive); random G(n,p) with node/edge colours and arbitrary keys; 14 symmetric families of 6-12 '
+              'nodes (cycles, wheels, prisms, Petersen, stars, trees, K_mn, doubled trees...) under relabelling. Found and now guards '
+              'F19 (lost symmetries for patterns of 8+ nodes).'),
+        design_ref='DESIGN.md §2 C06; notes/C06.md',
+        note='Trusted: networkx VF2 as reference; caps |I| <= 6000 and 3000 LCS maxima (skipped cases counted, < 1 %).',
+        technique='Differential testing against networkx VF2 with orbit bookkeeping; exhaustive enumeration of all small graph pairs + Hypothesis families'),
 }
 
 NOT_YET = 'check not built yet in this round (planned, see DESIGN.md §2)'
